@@ -48,6 +48,12 @@ def nontrivial(req, obs):
         return any(t[-1] != "l" for t in f[3:]) and any(t[-1] == "l" for t in f[3:])   # a dead and a live delivery
     if k == "ctxc":
         return len(f) == 5 and f[4].count(";") >= 1 and re.search(r"[cxht]", f[4]) is not None
+    if k == "share":
+        return len({t.split(":")[0] for t in f[4:]}) >= 2 and len({t.split(":")[1] for t in f[4:]}) < len(f[4:])  # a key through two wrappers
+    if k == "sharec":
+        return len(f) == 6 and f[5].count(";") >= 1
+    if k == "idle":
+        return True
     if k == "volume":
         return len(f) == 5 and int(f[3]) > 1024
     if k in ("expire", "router"):
@@ -73,6 +79,7 @@ PROP = {
         "Wm.Dedup.middleware_key_error", "Wm.Dedup.middleware_calls_iff_accepted",
         "Wm.Dedup.middleware_none_after_first", "Wm.Dedup.middleware_exactly_one",
         "Wm.Dedup.error_does_not_consume_key", "Wm.Dedup.middleware_error_is_clean",
+        "Wm.Dedup.middleware_then_decorator_drops", "Wm.Dedup.decorator_then_middleware_drops",
         "Wm.Dedup.decorator_filters_and_acks", "Wm.Dedup.decorator_key_error_aborts",
         "Wm.Dedup.decorator_cases_exhaustive", "Wm.Dedup.decide_filters_and_acks", "Wm.Dedup.decorate_eq_decide",
         "Wm.Dedup.decorator_abort_loses_accepted_witness",
@@ -108,6 +115,13 @@ PROP = {
             "1500..60000 other keys and last a sentinel key; the sentinel is polled until it is accepted again (= a clean-up whose tick is past "
             "the sentinel's, hence every probe's, expiry has run: theorem sentinel_reaccepted_probe_forgotten), then every probe is presented "
             "again and must be accepted again, whatever the number of keys that expired together - no wall-clock bound is asserted; "
+            "share / sharec: 1..6 wrappers (Middleware() and PublisherDecorator() called repeatedly) built from ONE Deduplicator value whose "
+            "Repository and/or KeyFactory are left to the defaults (also explicit repository; nil *Deduplicator as the contrast where every "
+            "wrapper is its own Deduplicator), keys presented through different wrappers and through d.IsDuplicate directly, sequentially and "
+            "from 2..32 goroutines; rule: among all messages of a key presented to one Deduplicator exactly one gets through, whichever wrapper; "
+            "idle: 4..8 workers, each on its own repository (windows 1..3 ms), present a new key, wait (Len() as a trigger only) until the clean-up "
+            "emptied the repository and present the next new key at once, for 2.5 s (quick) / 12 s (thorough); a key not cleaned within 100 "
+            "windows is polled until it is accepted again (60 s deadline) - rule accepted_again_after_expiry; "
             "hash: systematic + seeded payload pairs around the 64-byte minimum and the configured limit; "
             "hist: stamped concurrent histories (1..32 goroutines, windows 1..50 ms, clean-up ticker running, via repository / "
             "middleware / decorator) checked against the timed Lean model by a per-key linearisation search whose witness is replayed on "
